@@ -43,10 +43,15 @@ Definition ev_access (e : event) : option (loc * bool) :=
   end.
 
 (* ---- the events of one step ------------------------------------------------------ *)
-(* advance links the cell of a completed top frame *)
+(* advance links the cell of a completed top frame; when the next field of the top frame
+   is of an unsupported type its build fails and its To is set to a typed nil pointer *)
 Definition adv_events (t : tid) (stk : list frame) : list event :=
   match stk with
-  | f :: _ => match f_todo f with [] => [EWr t (LCell (f_cell f))] | _ :: _ => [] end
+  | f :: _ =>
+      match f_todo f with
+      | [] => [EWr t (LCell (f_cell f))]
+      | m :: _ => if N.eqb m unsupported then [EWr t (LCell (f_cell f))] else []
+      end
   | [] => []
   end.
 
@@ -75,6 +80,7 @@ Definition lstep_events (g : graph) (n : name) (t : tid) (sh : shared) (p : pc) 
       | [] => []
       end
   | PLinked stk => adv_events t stk
+  | PFail (f :: _) => [EWr t (LCell (f_cell f))]   (* the enclosing build fails in turn *)
   | _ => []
   end.
 
